@@ -483,22 +483,49 @@ func simRun(t *testing.T, fn func() *verifkit.Failure) (res *verifkit.Failure) {
 	done := make(chan struct{})
 	var inner *verifkit.Failure
 	go func() {
-		select {
-		case <-done:
-		case <-time.After(300 * time.Second):
-			// virtual time cannot pass a goroutine that waits for a lock (or spins): a scenario of milliseconds that takes
-			// five minutes of real time is a deadlock or a livelock in the code under test
-			buf := make([]byte, 1<<20)
+		// virtual time cannot pass a goroutine that waits for a lock (or spins): a scenario of milliseconds that takes
+		// minutes of real time with a goroutine of the code under test parked on a lock is a deadlock or a livelock.
+		// A scenario that is merely slow (a saturated machine, a flood of routes) is not: it gets twenty minutes and is
+		// then given up as inconclusive, never reported.
+		lockWaiters := func() (all string, stuck []string) {
+			buf := make([]byte, 4<<20)
 			buf = buf[:runtime.Stack(buf, true)]
-			var stuck []string
 			for _, g := range strings.Split(string(buf), "\n\n") {
-				if strings.Contains(g, "synctest") && (strings.Contains(g, "sync.(*Mutex)") || strings.Contains(g, "sync.(*RWMutex)") || strings.Contains(g, "semacquire")) {
+				if !strings.Contains(g, "synctest") || strings.Contains(g, "runtime.Stack(") {
+					continue
+				}
+				if !(strings.Contains(g, "sync.(*Mutex)") || strings.Contains(g, "sync.(*RWMutex)") || strings.Contains(g, "sync.(*WaitGroup)")) {
+					continue
+				}
+				if strings.Contains(g, "/pkg/server.(") || strings.Contains(g, "/internal/pkg/table.(") {
 					stuck = append(stuck, g)
 				}
 			}
-			fmt.Fprintf(os.Stderr, "SIMNET-WATCHDOG: bubble stuck for 300s of real time\n%s\n", buf)
-			verifkit.AbortCase("hang", fmt.Sprintf("the scenario did not finish within 300 s of real time; goroutines waiting for locks:\n%s", strings.Join(stuck, "\n\n")))
+			return string(buf), stuck
 		}
+		for waited := 0; waited < 1200; waited += 300 {
+			select {
+			case <-done:
+				return
+			case <-time.After(300 * time.Second):
+			}
+			all, stuck := lockWaiters()
+			if len(stuck) > 0 {
+				// the same goroutines must still be there a little later (a lock held for a moment is not a hang)
+				time.Sleep(5 * time.Second)
+				if _, again := lockWaiters(); len(again) > 0 {
+					fmt.Fprintf(os.Stderr, "SIMNET-WATCHDOG: bubble stuck for %ds of real time\n%s\n", waited+300, all)
+					verifkit.AbortCase("hang", fmt.Sprintf("the scenario did not finish within %d s of real time; goroutines of the code under test waiting for locks:\n%s", waited+300, strings.Join(stuck, "\n\n")))
+				}
+			}
+		}
+		select {
+		case <-done:
+			return
+		default:
+		}
+		fmt.Fprintf(os.Stderr, "SIMNET-WATCHDOG: scenario still running after 1200 s of real time with no goroutine of the code under test waiting for a lock: given up (inconclusive)\n")
+		os.Exit(3)
 	}()
 	defer close(done)
 	defer func() {
